@@ -379,6 +379,69 @@ def crosscheck_contracts(run, seed, n):
                             distinct_nontrivial=len(set(pairs)), decides='nothing (validates assumptions only)'))
 
 
+def _standin_chunk(pairs):
+    ev = 0
+    viols = []
+    for b, match in pairs:
+        for fname in ('rule107_agegroups_trackandfield', 'rule507_agegroups_crosscountry'):
+            for vets, underage in ((True, False), (False, True)):
+                ev += 1
+                o1 = _real_call(fname, (b.year, b.month, b.day), (match.year, match.month, match.day), vets, underage, 'date')
+                o2 = _real_call(fname, (b.year, b.month, b.day), (match.year, match.month, match.day), vets, underage, 'iso')
+                want = _spec_call(fname, (b.year, b.month, b.day), (match.year, match.month, match.day), vets, underage)
+                tf = fname.startswith('rule107')
+                wrong = o1 != o2 or o1[0] != 'ret' or ((not tf or match.month <= 9) and o1[1] != want)
+                if wrong and len(viols) < 3:
+                    viols.append(dict(job=['eq', [fname, vets, underage, 'iso' if o1 != o2 else 'date']],
+                                      model={'born_y': b.year, 'born_m': b.month, 'born_d': b.day, 'match_y': match.year,
+                                             'match_m': match.month, 'match_d': match.day},
+                                      call='%s(%s, %s, vets=%s, underage=%s)' % (fname, b, match, vets, underage),
+                                      observed=dict(date=o1, iso=o2), required=str(want)))
+    return ev, viols
+
+
+def standin(run, seed, n):
+    """bounded stand-in on the REAL functions: the property's clauses evaluated on sampled (birth, meeting) pairs -
+    boundary days of every cut-off, days 1..12 (day/month ambiguity of text dates), leap days, random dates.
+    It decides the run where an obligation is undecided (e.g. a dependency used outside its assumed contract)."""
+    rnd = random.Random(seed + 1)
+    m = _mod()
+    pairs = []
+    for my in (2015, 2016, 2100):
+        for mm, md in ((1, 1), (2, 28), (2, 29), (3, 1), (8, 1), (8, 30), (8, 31), (9, 1), (9, 30), (10, 1), (12, 31), (6, 13)):
+            try:
+                match = datetime.date(my, mm, md)
+            except ValueError:
+                continue
+            for age in (8, 10, 11, 13, 17, 20, 35, 100):
+                for bm, bd in ((2, 28), (2, 29), (3, 1), (8, 9), (9, 8), (8, 31), (9, 1), (12, 31), (1, 1), (mm, md), (6, 12), (12, 6)):
+                    try:
+                        pairs.append((datetime.date(my - age, bm, bd), match))
+                    except ValueError:
+                        pass
+    while len(pairs) < n:
+        match = datetime.date.fromordinal(rnd.randint(730000, 767000))
+        b = datetime.date.fromordinal(match.toordinal() - rnd.randint(0, 40200))
+        pairs.append((b, match))
+    chunks = [pairs[i::16] for i in range(16)]
+    ev = bad = 0
+    for r in report.pool_map(_standin_chunk, chunks):
+        if isinstance(r, dict):
+            run.checker_error(r['_crash'])
+            continue
+        e, viols = r
+        ev += e
+        for v in viols:
+            bad += 1
+            if bad <= 3:
+                run.violation('standin/%s' % v['job'][1][0], v, True)
+    run.bounded.append(dict(what='the property clauses on the real functions (date vs ISO text vs rule-text spec) on boundary and random date pairs',
+                            bound='%d pairs x 2 functions x 2 option settings, seed %d' % (len(pairs), seed), evaluations=ev,
+                            distinct_nontrivial=len(set(pairs)), decides='undecided obligations only (second line)'))
+    if not bad:
+        run.standin_covers('*/in-subset')
+
+
 def _exh_chunk(args):
     from dateutil.relativedelta import relativedelta
     y0, = args
@@ -461,6 +524,7 @@ def main(tier, seed):
         else:
             U.absorb(run, res)
     crosscheck_contracts(run, seed, 20000 if tier == 'quick' else 200000)
+    standin(run, seed, 3000 if tier == 'quick' else 60000)
     if tier == 'thorough':
         thorough_contracts(run)
     return run.finish()
